@@ -37,6 +37,8 @@ def plan(tier):
             "reuse_guard_column_leading_insertions_over_one_block", "budget_exhausted_at_seam", "unary_run_to_block_boundary",
             "aln_recycled_from_other_pattern_length", "aln_prefilled_garbage_semiglobal", "aln_prefilled_garbage_other_mode",
             "aln_recycled_longer_operations_vector", "builder_reused_with_redefinition",
+            "ambiguity_chain_not_transitively_closed", "many_fresh_builders_same_configuration",
+            "lazy_hit_starting_at_text_position_0_simple", "lazy_hit_starting_at_text_position_0_long",
             "object_cloned_mid_history_both_continue", "clone_from_into_used_object", "same_searches_two_orders",
             "builder_cloned_mid_history", "builder_serde_roundtrip_mid_history",
             "iterator_consumed_via_count", "iterator_consumed_via_last", "iterator_consumed_via_nth",
@@ -55,7 +57,7 @@ def plan(tier):
                 "random order and repeated, at searched+1, |t|-1, |t|, |t|+3 (refused when not searched) and - single-word "
                 "version - at arbitrary searched ends; exhaustive over {a,b} (|p|<=3, |t|<=4/5, every k<=|p|) plus "
                 "|p| in {3,5,7,8,9,15,16,17,24,32,33,40,63,64,65,100} with u8..u64 words, texts of 100-120 symbols (ring "
-                "buffer wraps), texts beginning inside the pattern, the pattern stretched by d inserted symbols with k=d+1 (alignments as long as the ring buffer allows), k>=|p|, k=255, stale store after a larger search; reuse after an eager search over a text disjoint from the pattern's alphabet followed by hits at text position 0 with more than one block of leading insertions (2-3 blocks, u8/u16); hits of distance exactly k whose edits all lie left of a block seam (head v x c^r | B against v* c^(r+1) B, enumerated over u8/u16 blocks, seams, k<=3, r<=3); unary runs filling the leading blocks with a longer run in the text (k=0) or one substitution; inputs found by the guided search of the block machine's rare transitions (see C09), searched eagerly and lazily by both implementations. ONE Alignment object is handed to every next_alignment / alignment / alignment_at call of a driver process (it travels between matchers of other pattern lengths and the other implementation, between eager and lazy API; every third call it is first overwritten with garbage in all fields incl. mode Semiglobal/Local/Custom/Global and 50 operations): all fields of the result must be right. ONE MyersBuilder re-configured between builds (same ambiguity byte widened, narrowed, reset; wildcard added), ambiguous symbols on block first rows, single-word and block-based matcher built after every stage; the builder cloned / sent through serde_json mid-history. Values (class ov, all word types): after half of the searches every matcher is Debug-formatted, clone()d and clone_from()-ed into a used object of another pattern; the second half runs on originals, clones and clone_from targets, then the first half again in reverse order; fresh find_all / find_all_lazy iterators consumed through count/last/nth/skip/step_by (every item's start, end, distance judged) and size_hint after n items. distinct_nontrivial counts searches (object, text, k, mode) "
+                "buffer wraps), texts beginning inside the pattern, the pattern stretched by d inserted symbols with k=d+1 (alignments as long as the ring buffer allows), k>=|p|, k=255, stale store after a larger search; reuse after an eager search over a text disjoint from the pattern's alphabet followed by hits at text position 0 with more than one block of leading insertions (2-3 blocks, u8/u16); hits of distance exactly k whose edits all lie left of a block seam (head v x c^r | B against v* c^(r+1) B, enumerated over u8/u16 blocks, seams, k<=3, r<=3); unary runs filling the leading blocks with a longer run in the text (k=0) or one substitution; inputs found by the guided search of the block machine's rare transitions (see C09), searched eagerly and lazily by both implementations. ONE Alignment object is handed to every next_alignment / alignment / alignment_at call of a driver process (it travels between matchers of other pattern lengths and the other implementation, between eager and lazy API; every third call it is first overwritten with garbage in all fields incl. mode Semiglobal/Local/Custom/Global and 50 operations): all fields of the result must be right. ONE MyersBuilder re-configured between builds (same ambiguity byte widened, narrowed, reset; wildcard added), ambiguous symbols on block first rows, single-word and block-based matcher built after every stage; the builder cloned / sent through serde_json mid-history. Chained ambiguity tables that are not transitively closed, both declaration orders, 33 fresh builders per configuration with a single-word and a block-based matcher each; lazy hits whose alignment starts at text position 0 queried through hit_at/path_at/alignment_at (required for both implementations). Values (class ov, all word types): after half of the searches every matcher is Debug-formatted, clone()d and clone_from()-ed into a used object of another pattern; the second half runs on originals, clones and clone_from targets, then the first half again in reverse order; fresh find_all / find_all_lazy iterators consumed through count/last/nth/skip/step_by (every item's start, end, distance judged) and size_hint after n items. distinct_nontrivial counts searches (object, text, k, mode) "
                 "in which some reported path mixes matches and edits",
         "bounds": {"mc": "store machine: Sym={0,1}, |p|<=3, |t|<=4/5, k<=3, eager and lazy, second search after two first "
                          "searches; banded store of the block version: W=2, |p|<=5/6, |t|<=4/5, k in {-1,0,1,2,|p|} / every k; "
